@@ -224,11 +224,14 @@ def native_fptable(tmpdir, timeout=600):
     env = dict(GOENV, VERIF_FPTABLE='1')
     cmd = ['go', 'test', '-v', '-vet=off', '-count=1', '-tags=verif', '-overlay', ov, '-run', '^TestVerifFPTable$', '.']
     p = subprocess.run(cmd, cwd=REPO, env=env, capture_output=True, text=True, timeout=timeout)
-    tab = {'bin': {}, 'un': {}}
+    tab = {'bin': {}, 'un': {}, 'pow': {}}
     for line in p.stdout.split('\n'):
         if line.startswith('VERIF-FP bin '):
             _, _, op, i, j, c = line.split()
             tab['bin'][(int(op), int(i), int(j))] = int(c)
+        elif line.startswith('VERIF-FP pow '):
+            _, _, i, j, cc, v = line.split()
+            tab['pow'][(int(i), int(j))] = (int(cc), int(v))
         elif line.startswith('VERIF-FP un '):
             _, _, k, i, c, v = line.split()
             tab['un'][(int(k), int(i))] = (int(c), int(v))
